@@ -779,8 +779,42 @@ pub fn progen(seed: u64) -> Program {
 pub fn big(seed: u64) -> Program {
     let mut r = Rng::new(seed ^ 0xb16);
     let mut out = String::new();
-    let shape = r.below(5);
+    let shape = r.below(8);
     match shape {
+        7 => {
+            // macros multiplying each other: level i uses level i+1 `fan` times ("billion laughs")
+            let levels = 2 + r.below(5);
+            let fan = *r.pick(&[2u64, 10, 30, 100]);
+            // a long operator chain is another subject (stack depth): above 300 terms the leaves do not chain
+            let leaf = if fan.pow(levels as u32) <= 300 { "1 +" } else { "0" };
+            for i in 1..=levels {
+                let body: Vec<String> = (0..fan).map(|_| if i == levels { leaf.to_string() } else { format!("M{}", i + 1) }).collect();
+                out.push_str(&format!("#define M{} {}\n", i, body.join(" ")));
+            }
+            let uses: Vec<String> = (1..=levels).map(|i| format!("M{}", i)).collect();
+            out.push_str(&format!("char x;\nvoid main() {{ x = {} 1; }}\n", uses.join(" ")));
+        }
+        5 => {
+            // macros with many parameters, several of them (the preprocessor compiles them into one regex set)
+            let (k, n) = *r.pick(&[(1u64, 100u64), (2, 120), (1, 127), (1, 128), (1, 300), (1, 900), (2, 1000), (17, 110), (40, 50), (60, 22)]);
+            for j in 0..k {
+                let ps: Vec<String> = (0..n).map(|i| format!("p{}", i)).collect();
+                out.push_str(&format!("#define M{}({}) (p0 + p{})\n", j, ps.join(","), n - 1));
+            }
+            let args: Vec<String> = (0..n).map(|i| format!("{}", i & 7)).collect();
+            out.push_str(&format!("char x;\nvoid main() {{ x = M0({}); }}\n", args.join(",")));
+        }
+        6 => {
+            // very long macro and parameter names
+            let n = *r.pick(&[1_000usize, 30_000, 150_000, 200_000, 400_000]);
+            let a = "A".repeat(n);
+            let b = "B".repeat(n);
+            match r.below(3) {
+                0 => out.push_str(&format!("#define {} 1\n#define {} 2\nchar x;\nvoid main() {{ x = {}; }}\n", a, b, a)),
+                1 => out.push_str(&format!("#define F({}) {} + 1\nchar x;\nvoid main() {{ x = F(2); }}\n", a, a)),
+                _ => out.push_str(&format!("char {};\nvoid main() {{ {} = 1; }}\n", a, a)),
+            }
+        }
         0 | 1 => {
             let n = *r.pick(&[8_000u64, 20_000, 40_000, 48_000, 64_000]);
             out.push_str("const unsigned char gfx[] = {\n");
